@@ -191,7 +191,7 @@ pub fn run_c01(out: &mut Out, rng: &mut Rng, tier: Tier) -> String {
     // (B') short histories that start from every kind of conversion on uniform and ragged inputs
     // (including ragged inputs whose total length fills a rectangle), then go on with other operations
     for lens in [vec![3usize, 2, 4], vec![2, 3, 1], vec![1, 2, 0], vec![2, 1, 3], vec![2, 2, 2], vec![0, 0], vec![1, 3], vec![4, 4, 3, 5], vec![]] {
-        for kind in ["vec_vec", "slice_vec", "iter", "array_vec"] {
+        for kind in ["vec_vec", "slice_vec", "iter", "array_vec", "iter_liar_rows", "iter_liar_over", "iter_liar_under"] {
             out.case(&format!("history conversion kind={kind} lens={:?}", lens));
             let mut w = World::<Tok>::new(out);
             w.rows(out, 0, kind, &lens);
@@ -229,6 +229,28 @@ pub fn run_c01(out: &mut Out, rng: &mut Rng, tier: Tier) -> String {
             w.clear(out, 2);
             end_of_history(out, &mut w);
             out.led_mode = false;
+        }
+    }
+    // products whose result is not square, in all four order combinations and all call forms, inside a
+    // history that goes on with the result (the random histories rarely multiply a column-major
+    // operand by a matrix of a different width)
+    for (n, k, m) in [(2usize, 3usize, 4usize), (3, 1, 2), (1, 2, 3), (4, 2, 1)] {
+        for ao in ORDERS {
+            for bo in ORDERS {
+                out.case(&format!("history products {n}x{k} * {k}x{m} orders={}{}", ord_ch(ao), ord_ch(bo)));
+                out.nontrivial();
+                let mut w = World::<Tok>::new(out);
+                for kind in ["multiply", "like", "op_bb", "op_ob", "op_bo", "op_oo"] {
+                    w.new_matrix(out, 0, ao, n, k, 1);
+                    w.new_matrix(out, 1, bo, k, m, 500);
+                    w.mul(out, 2, 0, 1, kind);
+                    if w.regs[2].is_some() {
+                        w.order_op(out, 2, "transpose", None);
+                        w.resize(out, 2, n, m);
+                    }
+                }
+                end_of_history(out, &mut w);
+            }
         }
     }
     // index resolution through caller-defined (inconsistent) accessors
